@@ -100,6 +100,13 @@ class Unifier:
         self.attr_map: Dict[str, str] = {}
         self.attr_rev: Dict[str, str] = {}
         self.pairs: List[Tuple[ast.AST, ast.AST]] = []
+        # reference parameter -> attribute chain over a current parameter ("parameter object": copy -> proxy.copy)
+        self.param_expr: Dict[str, ast.expr] = {}
+        self.allow_param_expr = False
+        # recursive calls are compared through the parameter correspondence once it is complete
+        self.rec_calls: List[Tuple[ast.Call, ast.Call]] = []
+        self.kfn = kfn
+        self.nfn = None
 
     # -- names ------------------------------------------------------------------------------------
     def _bij(self, k: str, n: str) -> bool:
@@ -127,7 +134,21 @@ class Unifier:
                 self.binds[kid] = n
                 return True
             return ast.dump(prev) == ast.dump(n)
+        if self.mode == "func" and self.allow_param_expr and kid in self.kparams and kid not in self.kstored_params and kid not in self.map \
+                and isinstance(n, ast.Attribute) and isinstance(k.ctx, ast.Load):
+            root = n
+            while isinstance(root, ast.Attribute):
+                root = root.value
+            if isinstance(root, ast.Name) and root.id in self.nparams and self.rev.get(root.id) is None:
+                prev = self.param_expr.get(kid)
+                if prev is None:
+                    self.param_expr[kid] = n
+                    return True
+                return ast.dump(prev) == ast.dump(n)
+            return False
         if not isinstance(n, ast.Name):
+            return False
+        if kid in self.param_expr:
             return False
         if kid in self.klocals or kid in self.kparams:
             if self.mode == "func" and n.id not in self.nlocals and n.id not in self.nparams:
@@ -173,6 +194,13 @@ class Unifier:
                 self.attr_rev[n.id] = k.attr
                 self.pairs.append((k, n))
                 return True
+        if self.mode == "func" and self.nfn is not None and isinstance(k, ast.Call) and isinstance(n, ast.Call) and self._is_self_call(k, self.kname, self.kself is not None) \
+                and self._is_self_call(n, self.nname, self.n_is_method):
+            if isinstance(k.func, ast.Attribute) and isinstance(n.func, ast.Attribute) and not self.u(k.func.value, n.func.value):
+                return False
+            self.rec_calls.append((k, n))
+            self.pairs.append((k, n))
+            return True
         if type(k) is not type(n):
             return False
         if isinstance(k, ast.Constant):
@@ -217,10 +245,49 @@ class Unifier:
             return True
         return k == n
 
+    @staticmethod
+    def _is_self_call(c: ast.Call, name: str, is_method: bool) -> bool:
+        if is_method:
+            return isinstance(c.func, ast.Attribute) and c.func.attr == name
+        return isinstance(c.func, ast.Name) and c.func.id == name
+
     def u_block(self, ks: List[ast.stmt], ns: List[ast.stmt]) -> bool:
         if len(ks) != len(ns):
             return False
-        return all(self.u(a, b) for a, b in zip(ks, ns))
+        if not all(self.u(a, b) for a, b in zip(ks, ns)):
+            return False
+        return self.check_rec_calls()
+
+    def check_rec_calls(self) -> bool:
+        """recursive calls: actual by actual through the parameter correspondence"""
+        pending, self.rec_calls = self.rec_calls, []
+        for kc, nc in pending:
+            kb = _bind_call(self.kfn, kc, skip_first=self.kself is not None)
+            nb = _bind_call(self.nfn, nc, skip_first=self.n_is_method)
+            if kb is None or nb is None:
+                return False
+            kd, nd = _defaults(self.kfn), _defaults(self.nfn)
+            kps = self.kparams[1:] if self.kself is not None else self.kparams
+            used_n = set()
+            for kp in kps:
+                ke = kb.get(kp, kd.get(kp))
+                if kp in self.param_expr:
+                    ne = _subst_root(self.param_expr[kp], nb)
+                    if ne is None or ke is None or not self.u(ke, ne):
+                        return False
+                    continue
+                np_ = self.map.get(kp)
+                if np_ is None:
+                    continue        # not used by the body
+                used_n.add(np_)
+                ne = nb.get(np_, nd.get(np_))
+                if ke is None and ne is None:
+                    continue
+                if ke is None or ne is None or not self.u(ke, ne):
+                    return False
+            for attr, np_ in self.attr_map.items():
+                used_n.add(np_)
+        return not self.rec_calls or self.check_rec_calls()
 
     def copy_positions(self):
         for k, n in self.pairs:
@@ -322,6 +389,20 @@ def _bind_call(nfn, call: ast.Call, skip_first: bool) -> Optional[Dict[str, ast.
     return out
 
 
+def _subst_root(expr: ast.expr, bound: Dict[str, ast.expr]) -> Optional[ast.expr]:
+    """attribute chain over a parameter with the parameter replaced by its actual"""
+    e = copy.deepcopy(expr)
+    cur, parent = e, None
+    while isinstance(cur, ast.Attribute):
+        parent, cur = cur, cur.value
+    if not isinstance(cur, ast.Name) or cur.id not in bound:
+        return None
+    if parent is None:
+        return copy.deepcopy(bound[cur.id])
+    parent.value = copy.deepcopy(bound[cur.id])
+    return e
+
+
 def _defaults(fn) -> Dict[str, Optional[ast.expr]]:
     a = fn.args
     pos = a.posonlyargs + a.args
@@ -371,6 +452,10 @@ class _Plan:
         for kp in kparams:
             np_ = u.map.get(kp)
             e = bound.get(np_) if np_ is not None else None
+            if kp in u.param_expr:
+                e = _subst_root(u.param_expr[kp], bound)
+                if e is None:
+                    return None
             if e is None and np_ is None and kp in bound and kp not in u.rev:
                 e = bound.get(kp)       # parameter unused in the body, kept under its name
             if e is None:
@@ -488,6 +573,7 @@ def _restore_functions_once(pkg, sources) -> bool:
                 if ast.dump(d.node.args) != ast.dump(kfn.args):
                     continue
             u = Unifier(kfn, k_is_method, "func", nname=d.node.name, nparams=_params(d.node), nlocals=_stored(d.node), n_is_method=d.kind == "method")
+            u.nfn = d.node
             if not u.u_block(kbody, nbody):
                 continue
             # every reference-side parameter that the body uses must be a parameter on the current side as well
@@ -790,5 +876,87 @@ def restore_inlined(pkg, sources: Dict[str, dict]) -> None:
             changed = True
             _refresh(pkg)
             have = {d.qual for m in pkg.values() for d in m.defs}
+    if changed:
+        _refresh(pkg)
+
+
+# =====================================================================================================================
+# signature mode: a reference function whose parameter list was re-arranged
+# =====================================================================================================================
+
+def _sig_key(fn) -> str:
+    a = fn.args
+    return ast.dump(ast.arguments(posonlyargs=[ast.arg(arg=x.arg) for x in a.posonlyargs], args=[ast.arg(arg=x.arg) for x in a.args],
+                                  vararg=ast.arg(arg=a.vararg.arg) if a.vararg else None, kwonlyargs=[ast.arg(arg=x.arg) for x in a.kwonlyargs],
+                                  kw_defaults=[None if d is None else d for d in a.kw_defaults], kwarg=ast.arg(arg=a.kwarg.arg) if a.kwarg else None,
+                                  defaults=list(a.defaults)))
+
+
+def restore_signatures(pkg, sources: Dict[str, dict]) -> None:
+    """A reference function that is still there under its name but takes its inputs differently (parameters re-ordered, made keyword-only, defaults
+    dropped, two bound methods replaced by the object they belong to) while its body is the reference body modulo that correspondence: the reference
+    parameter list is put back and every call is re-written to it, so that rules which read arguments by position / name see what they know."""
+    changed = False
+    for m in list(pkg.values()):
+        for d in list(m.defs):
+            if d.kind not in ("module", "method") or d.qual not in sources:
+                continue
+            name = d.node.name
+            if d.kind == "method" and (not name.startswith("_") or name.startswith("__")):
+                continue        # calls of a public method name cannot be told apart from calls of other classes' methods of that name
+            entry = sources[d.qual]
+            kfn = _parse_src(entry)
+            if kfn is None or type(kfn) is not type(d.node):
+                continue
+            if _sig_key(kfn) == _sig_key(d.node):
+                continue
+            if kfn.args.vararg or kfn.args.kwarg or d.node.args.vararg or d.node.args.kwarg:
+                continue
+            if [ast.unparse(x) for x in d.node.decorator_list] != [ast.unparse(x) for x in kfn.decorator_list]:
+                continue
+            kbody, nbody = _strip_doc(kfn.body), _strip_doc(d.node.body)
+            if _shape(kbody) != _shape(nbody):
+                continue
+            k_is_method = entry.get("class") is not None
+            u = Unifier(kfn, k_is_method, "func", nname=name, nparams=_params(d.node), nlocals=_stored(d.node), n_is_method=d.kind == "method")
+            u.nfn = d.node
+            u.allow_param_expr = True
+            if not u.u_block(kbody, nbody):
+                continue
+            if any(u.map.get(kp) is not None and u.map[kp] not in u.nparams for kp in u.kparams):
+                continue
+            if any(u.rev.get(np_) is not None and u.rev[np_] not in u.kparams for np_ in u.nparams):
+                continue
+            plan = _Plan(d.qual, entry, kfn, d, m, u)
+            rewrites = []
+            ok = True
+            for (m2, parent, fld, idx, v, kind) in _references(pkg, plan):
+                if _inside(v, d.node):
+                    continue
+                if kind != "call":
+                    ok = False
+                    break
+                bound = _bind_call(d.node, parent, skip_first=plan.n_is_method)
+                if bound is None:
+                    ok = False
+                    break
+                kc = plan.k_call(bound, v.value if isinstance(v, ast.Attribute) else None, parent)
+                if kc is None:
+                    ok = False
+                    break
+                rewrites.append((parent, kc))
+            if not ok:
+                continue
+            u.copy_positions()
+            ast.copy_location(kfn, d.node)
+            for x in ast.walk(kfn):
+                if "lineno" in getattr(x, "_attributes", ()) and not hasattr(x, "lineno"):
+                    ast.copy_location(x, d.node)
+            ast.fix_missing_locations(kfn)
+            d.container[d.container.index(d.node)] = kfn
+            for call, kc in rewrites:
+                call.func, call.args, call.keywords = kc.func, kc.args, kc.keywords
+            m.log.append(f"{d.qual}: parameter list differs from the reference one while the body unifies with it: reference signature restored, {len(rewrites)} call(s) re-written")
+            changed = True
     if changed:
         _refresh(pkg)
